@@ -6,10 +6,12 @@ lengths that divide, do not divide, equal or exceed the dimension — and every 
 `dd = mkDims dims cdims` is the `DIM_REC` array `HMCcreate`/`HMCIstaccess` build.
 Units: positions `p`, `pos`, lengths `len`, `k` and seeks are BYTES; `e`, `arr`, `sbi`, `spb` are ELEMENT indices.
 
-Preconditions found necessary (the C misbehaves outside them, see the `example`s at the end and REPORT.md):
- * a transfer must START on an element boundary (`pos % nt_size = 0`); its LENGTH may be any number of bytes;
- * for the refinement of a flat byte array the transfer must end inside the element (`pos + len ≤ Π dims · nt_size`):
-   `HMCPwrite` does not check this and wraps around to the start of the element. -/
+After the repairs `chunk-unaligned-access` and `chunk-write-past-end` of hchunks.c:
+ * a transfer may start at ANY byte position and have ANY length (`elem_off = relative_posn % nt_size` is honoured by the
+   `HMCPread`/`HMCPwrite` loops), so no alignment hypothesis appears any more;
+ * a write that would end past the (fixed-size) element is REFUSED by `HMCPwrite` before anything is modified
+   (`hmcpWrite_spec`); reads are clamped by `HMCPread`. The pure piece walk `walk` itself still wraps past the end, hence
+   `pos + len ≤ Π dims · nt_size` remains the hypothesis of the statements about `walk`/`writePieces` on their own. -/
 namespace H4.Props.C04
 open H4.Chunk
 
@@ -91,38 +93,40 @@ theorem chunk_addr_inj {dims cdims : List Nat} {nt : Nat} (hg : GeomOK dims cdim
 example : GeomOK [5, 7] [2, 3] 4 := by decide
 example : ((List.range 35).map fun e => (chunkNum [5, 7] [2, 3] 4 e, seekInChunk [5, 7] [2, 3] 4 e)).Nodup := by decide
 
-/-- The piece length returned by `calculate_chunk_for_chunk` at an element-aligned byte position `p` with bytes
-    remaining (`done < len`): positive, at most what remains, does not cross the end of the current chunk row of the
-    fastest dimension nor the end of that dimension (partial last chunk), is the LONGEST such prefix, and its bytes
-    occupy consecutive addresses of ONE chunk buffer: byte `p + j` lives at `(chunk_num, seek + j)`. -/
+/-- The piece length `calculate_chunk_for_chunk(len + elem_off, …) - elem_off` used by the loops at ANY byte position
+    `p` (`elem_off = p % nt_size`) with bytes remaining (`done < len`): positive, at most what remains, does not cross the
+    end of the current chunk row of the fastest dimension nor the end of that dimension (partial last chunk), is the
+    LONGEST such prefix, and its bytes occupy consecutive addresses of ONE chunk buffer: byte `p + j` lives at
+    `(chunk_num, seek + elem_off + j)`. -/
 theorem chunk_piece_contiguous {dims cdims : List Nat} {nt : Nat} (hg : GeomOK dims cdims nt)
-    (p len done : Nat) (hal : p % nt = 0) (hrem : done < len) :
+    (p len done : Nat) (hrem : done < len) :
     let dd := mkDims dims cdims
     let ix := updateChunkIndicesSeek dd nt p
     let dl := dd.getLastD default                 -- fastest dimension
     let a := (p / nt) % dl.dimLength              -- array index in the fastest dimension
-    ∃ k : Nat, calculateChunkForChunk dd nt len done ix.1 ix.2 = (k : Int) ∧
+    let off := p % nt                             -- elem_off
+    ∃ k : Nat, calculateChunkForChunk dd nt (len + off) done ix.1 ix.2 - (off : Int) = (k : Int) ∧
       0 < k ∧ k ≤ len - done ∧
-      (a % dl.chunkLength) * nt + k ≤ dl.chunkLength * nt ∧
-      a * nt + k ≤ dl.dimLength * nt ∧
-      (k = len - done ∨ (a % dl.chunkLength) * nt + k = dl.chunkLength * nt ∨ a * nt + k = dl.dimLength * nt) ∧
-      ∀ j, j < k → byteAddr dd nt (p + j) = (chunkNumAt dd nt p, seekAt dd nt p + j) := by
-  intro dd ix dl a
+      (a % dl.chunkLength) * nt + off + k ≤ dl.chunkLength * nt ∧
+      a * nt + off + k ≤ dl.dimLength * nt ∧
+      (k = len - done ∨ (a % dl.chunkLength) * nt + off + k = dl.chunkLength * nt ∨ a * nt + off + k = dl.dimLength * nt) ∧
+      ∀ j, j < k → byteAddr dd nt (p + j) = (chunkNumAt dd nt p, seekAt dd nt p + off + j) := by
+  intro dd ix dl a off
   obtain ⟨hw, hne, _, _, hnt⟩ := hg.dd
-  exact piece_props hw hne hnt p len done hal hrem
+  exact piece_props hw hne hnt p len done hrem
 
 /-- 3×7 array of 2-byte elements in 2×3 chunks, at element (1,6) (last, partial chunk of the row: 1 element left):
     a 20-byte transfer gets a 2-byte piece -/
 example : calculateChunkForChunk (mkDims [3, 7] [2, 3]) 2 20 0
     (updateChunkIndicesSeek (mkDims [3, 7] [2, 3]) 2 26).1 (updateChunkIndicesSeek (mkDims [3, 7] [2, 3]) 2 26).2 = 2 := by decide
 
-/-- The `HMCPread`/`HMCPwrite` loop for a transfer of `len` bytes (ANY `len`) at an element-aligned byte position
-    `pos`: the pieces cover the byte range `[pos, pos+len)` exactly once and in order, every piece is non-empty, and the
+/-- The `HMCPread`/`HMCPwrite` loop for a transfer of `len` bytes (ANY `len`) at ANY byte position
+    `pos` (element-aligned or not): the pieces cover the byte range `[pos, pos+len)` exactly once and in order, every piece is non-empty, and the
     chunk-buffer addresses the `memcpy`s touch, in order, are exactly the addresses of bytes `pos, pos+1, …` of the
     element. (No upper bound on `pos + len` is needed for THIS statement: past the end `byteAddr` itself wraps, which
     is what the C does; the bound is needed for injectivity, see `chunked_refines_bytes`.) -/
 theorem chunk_walk_tiles {dims cdims : List Nat} {nt : Nat} (hg : GeomOK dims cdims nt)
-    (pos len : Nat) (hal : pos % nt = 0) :
+    (pos len : Nat) :
     let dd := mkDims dims cdims
     let ps := walk dd nt pos len
     ps.flatMap (fun pc => List.range' pc.pos pc.size) = List.range' pos len ∧
@@ -130,7 +134,7 @@ theorem chunk_walk_tiles {dims cdims : List Nat} {nt : Nat} (hg : GeomOK dims cd
     (∀ pc ∈ ps, 0 < pc.size) ∧ (ps.map (·.size)).sum = len := by
   intro dd ps
   obtain ⟨hw, hne, _, _, hnt⟩ := hg.dd
-  have ht := walk_tiles hw hne hnt hal len
+  have ht := walk_tiles hw hne hnt pos len
   exact ⟨tiles_positions ht, tiles_addrs ht, tiles_pos ht, tiles_sizes ht⟩
 
 /-- 5×7 bytes in 2×3 chunks, 20 bytes from position 4: nine pieces, cut at every chunk-row end and at the row end -/
@@ -145,9 +149,9 @@ structure WriteOp where
   pos : Nat
   data : List UInt8
 
-/-- starts on an element boundary and ends inside the element -/
+/-- ends inside the element (any start, any length; `HMCPwrite` refuses the others, see `hmcpWrite_spec`) -/
 def WriteOp.OK (dims : List Nat) (nt : Nat) (w : WriteOp) : Prop :=
-  w.pos % nt = 0 ∧ w.pos + w.data.length ≤ dims.prod * nt
+  w.pos + w.data.length ≤ dims.prod * nt
 
 instance (dims : List Nat) (nt : Nat) (w : WriteOp) : Decidable (w.OK dims nt) := by
   unfold WriteOp.OK; infer_instance
@@ -188,27 +192,28 @@ theorem write_read_refine {dims cdims : List Nat} {nt : Nat} (hg : GeomOK dims c
     (∀ w : WriteOp, w.OK dims nt →
       Sim (mkDims dims cdims) nt (dims.prod * nt)
         (writePieces st (walk (mkDims dims cdims) nt w.pos w.data.length) w.data) (flatWrite f w.pos w.data)) ∧
-    (∀ pos len, pos % nt = 0 → pos + len ≤ dims.prod * nt →
+    (∀ pos len, pos + len ≤ dims.prod * nt →
       readPieces st (walk (mkDims dims cdims) nt pos len) = (List.range' pos len).map f) := by
   obtain ⟨hw, hne, hD, _, hnt⟩ := hg.dd
   constructor
-  · intro w ⟨hal, hr⟩
-    have ht := walk_tiles hw hne hnt hal w.data.length
+  · intro w hr
+    have ht := walk_tiles hw hne hnt w.pos w.data.length
     have := write_sim hw hnt ht (by rw [hD]; exact hr) (by rw [hD]; exact hs)
     rw [hD] at this; exact this
-  · intro pos len hal hr
-    exact read_sim hs (walk_tiles hw hne hnt hal len) hr
+  · intro pos len hr
+    exact read_sim hs (walk_tiles hw hne hnt pos len) hr
 
 /-- **Chunked storage behaves as the same byte array as contiguous storage.**
     Start from a never-written element (every chunk reads as the fill pattern), perform ANY sequence of writes through
     the `HMCPwrite` piece walk into the map chunk number ↦ chunk buffer, then read ANY range back through the
     `HMCPread` piece walk: the result is what the same writes leave in a flat byte array, i.e. the last written byte
     at each position and the fill byte where nothing was written (`runFlat_last_write`). For every rank, every
-    dims/cdims (dividing or not), every `nt_size`; transfers start element-aligned and end inside the element. -/
+    dims/cdims (dividing or not), every `nt_size`, every start position (aligned or not) and length; transfers end inside
+    the element (`HMCPwrite` refuses the others: `hmcpWrite_spec`, `chunked_element_refines_flat`). -/
 theorem chunked_refines_bytes {dims cdims : List Nat} {nt : Nat} (hg : GeomOK dims cdims nt)
     (fill : List UInt8) (hf : fill.length ∣ nt)
     (ops : List WriteOp) (hops : ∀ w ∈ ops, w.OK dims nt)
-    (rpos rlen : Nat) (hal : rpos % nt = 0) (hr : rpos + rlen ≤ dims.prod * nt) :
+    (rpos rlen : Nat) (hr : rpos + rlen ≤ dims.prod * nt) :
     readPieces (runChunked (mkDims dims cdims) nt (initStore fill) ops) (walk (mkDims dims cdims) nt rpos rlen)
       = (List.range' rpos rlen).map (runFlat (fillAt fill) ops) := by
   have key : ∀ (ops : List WriteOp) (st : Store) (f : Nat → UInt8), (∀ w ∈ ops, w.OK dims nt) →
@@ -221,7 +226,7 @@ theorem chunked_refines_bytes {dims cdims : List Nat} {nt : Nat} (hg : GeomOK di
       intro st f hok hs
       exact ih _ _ (fun x hx => hok x (List.mem_cons_of_mem _ hx))
         ((write_read_refine hg hs).1 w (hok w (List.mem_cons_self)))
-  exact (write_read_refine hg (key ops _ _ hops (sim_init hf))).2 rpos rlen hal hr
+  exact (write_read_refine hg (key ops _ _ hops (sim_init hf))).2 rpos rlen hr
 
 /-- non-vacuity: 3×5 array of 2-byte elements in 2×2 chunks (neither divides), two overlapping writes crossing
     chunk and row boundaries, read back across the whole element -/
@@ -250,54 +255,198 @@ theorem hmcpSeek_spec (e : Elem) (offset : Int) :
                            else some { e with posn := (offset + e.totalBytes).toNat }) := by
   refine ⟨?_, ?_, ?_⟩ <;> simp [hmcpSeek, H4.Gen.Hdf.DF_CURRENT, H4.Gen.Hdf.DF_END]
 
-/-- `HMCPwrite` at an aligned in-range position writes all of `data`, advances `posn` by its length and keeps the
-    refinement of the flat array -/
-theorem hmcpWrite_refines {e : Elem} (he : ElemOK e) {f : Nat → UInt8}
-    (hs : Sim e.dd e.ntSize e.totalBytes e.store f) (data : List UInt8) (hne : data ≠ [])
-    (hal : e.posn % e.ntSize = 0) (hr : e.posn + data.length ≤ e.totalBytes) :
-    ∃ e', hmcpWrite e data = some (data.length, e') ∧ e'.posn = e.posn + data.length ∧
+/-- where a seek lands (may be negative): `DF_START` (0) / `DF_CURRENT` (1) / `DF_END` (2) -/
+def seekTarget (total posn : Nat) (off : Int) (origin : Nat) : Int :=
+  if origin = 1 then off + posn else if origin = 2 then off + total else off
+
+theorem hmcpSeek_eq (e : Elem) (off : Int) (origin : Nat) :
+    hmcpSeek e off origin =
+      if seekTarget e.totalBytes e.posn off origin < 0 then none
+      else some { e with posn := (seekTarget e.totalBytes e.posn off origin).toNat } := by
+  unfold hmcpSeek seekTarget
+  by_cases h1 : origin = 1
+  · subst h1; simp [H4.Gen.Hdf.DF_CURRENT, H4.Gen.Hdf.DF_END]
+  · by_cases h2 : origin = 2
+    · subst h2; simp [H4.Gen.Hdf.DF_CURRENT, H4.Gen.Hdf.DF_END]
+    · simp [H4.Gen.Hdf.DF_CURRENT, H4.Gen.Hdf.DF_END, h1, h2]
+
+/-- `HMCPwrite`, every case: an empty write or one that would end past the element end FAILS and nothing changes
+    (`none`: the state is simply not replaced); every other write — at ANY byte position — writes all of `data`,
+    advances `posn` by its length and keeps the refinement of the flat array -/
+theorem hmcpWrite_spec {e : Elem} (he : ElemOK e) {f : Nat → UInt8}
+    (hs : Sim e.dd e.ntSize e.totalBytes e.store f) (data : List UInt8) :
+    if data = [] ∨ e.posn + data.length > e.totalBytes then hmcpWrite e data = none
+    else ∃ e', hmcpWrite e data = some (data.length, e') ∧ e'.posn = e.posn + data.length ∧
       e'.dd = e.dd ∧ e'.ntSize = e.ntSize ∧ e'.length = e.length ∧
       Sim e.dd e.ntSize e.totalBytes e'.store (flatWrite f e.posn data) := by
   obtain ⟨hw, hnn, hnt, hl⟩ := he
-  have ht := walk_tiles hw hnn hnt hal data.length
-  have hsz := tiles_sizes ht
-  have hlen : (data.length == 0) = false := by
-    cases data with
-    | nil => exact absurd rfl hne
-    | cons _ _ => rfl
-  have hT : e.totalBytes = (dimsOf e.dd).prod * e.ntSize := by simp only [Elem.totalBytes, hl]
-  rw [hT] at hs hr ⊢
-  refine ⟨{ e with store := writePieces e.store (walk e.dd e.ntSize e.posn data.length) data,
-                   posn := e.posn + data.length }, ?_, rfl, rfl, rfl, rfl, ?_⟩
-  · simp only [hmcpWrite, hlen, Bool.false_eq_true, if_false, hsz]
-  · exact write_sim hw hnt ht hr hs
+  by_cases hbad : data = [] ∨ e.posn + data.length > e.totalBytes
+  · simp only [hbad, if_true]
+    rcases hbad with h0 | h1
+    · simp [hmcpWrite, h0]
+    · have : (data.length : Int) > (e.totalBytes : Int) - e.posn := by omega
+      simp only [hmcpWrite, this, if_true]
+      split <;> rfl
+  · simp only [hbad, if_false]
+    have hne : data ≠ [] := fun h => hbad (Or.inl h)
+    have hr : e.posn + data.length ≤ e.totalBytes := by omega
+    have ht := walk_tiles hw hnn hnt e.posn data.length
+    have hsz := tiles_sizes ht
+    have hlen : (data.length == 0) = false := by
+      cases data with
+      | nil => exact absurd rfl hne
+      | cons _ _ => rfl
+    have hin : ¬ ((data.length : Int) > (e.totalBytes : Int) - e.posn) := by omega
+    refine ⟨{ e with store := writePieces e.store (walk e.dd e.ntSize e.posn data.length) data,
+                     posn := e.posn + data.length }, ?_, rfl, rfl, rfl, rfl, ?_⟩
+    · simp only [hmcpWrite, hlen, Bool.false_eq_true, if_false, hin, hsz]
+    · have hT : e.totalBytes = (dimsOf e.dd).prod * e.ntSize := by simp only [Elem.totalBytes, hl]
+      rw [hT] at hs hr ⊢
+      exact write_sim hw hnt ht hr hs
 
-/-- `HMCPread(length ≥ 0)`: `length == 0` means "to the end", a request past the end is clamped, and the bytes
-    delivered are those of the flat array at `[posn, posn+n)`; `posn` advances by `n` -/
-theorem hmcpRead_refines {e : Elem} (he : ElemOK e) {f : Nat → UInt8}
-    (hs : Sim e.dd e.ntSize e.totalBytes e.store f) (length : Nat)
-    (hal : e.posn % e.ntSize = 0) (hp : e.posn ≤ e.totalBytes) :
-    let n := if length = 0 ∨ e.posn + length > e.totalBytes then e.totalBytes - e.posn else length
-    hmcpRead e length = some ((List.range' e.posn n).map f, { e with posn := e.posn + n }) := by
-  intro n
+/-- number of bytes `HMCPread(length)` delivers from position `posn` of an element of `total` bytes:
+    `length == 0` means "to the end", a request past the end is clamped, nothing at/after the end -/
+def readCount (total posn : Nat) (length : Int) : Nat :=
+  if length = 0 ∨ (posn : Int) + length > total then total - posn else length.toNat
+
+/-- `HMCPread`, every case: a negative length FAILS; otherwise — at ANY byte position, also at/after the end — the
+    bytes delivered are those of the flat array at `[posn, posn+n)`, `n = readCount …`, and `posn` advances by `n` -/
+theorem hmcpRead_spec {e : Elem} (he : ElemOK e) {f : Nat → UInt8}
+    (hs : Sim e.dd e.ntSize e.totalBytes e.store f) (length : Int) :
+    hmcpRead e length =
+      if length < 0 then none
+      else some ((List.range' e.posn (readCount e.totalBytes e.posn length)).map f,
+                 { e with posn := e.posn + readCount e.totalBytes e.posn length }) := by
   obtain ⟨hw, hnn, hnt, hl⟩ := he
-  have hn : ((if ((e.posn : Int) + (if ((length : Int) == 0) = true then (e.totalBytes : Int) - e.posn else length)
-        > e.totalBytes) then (e.totalBytes : Int) - e.posn
-      else (if ((length : Int) == 0) = true then (e.totalBytes : Int) - e.posn else length)) : Int).toNat = n := by
-    simp only [n, beq_iff_eq]
-    by_cases h0 : length = 0
-    · subst h0; simp <;> omega
-    · have h0' : ¬ ((length : Int) = 0) := by omega
-      simp only [h0, h0', if_false, false_or]
-      by_cases hgt : e.posn + length > e.totalBytes
-      · have : (e.posn : Int) + length > e.totalBytes := by omega
-        simp only [hgt, this, if_true]; omega
-      · have : ¬ ((e.posn : Int) + length > e.totalBytes) := by omega
-        simp only [hgt, this, if_false]; omega
-  have hneg : ¬ ((length : Int) < 0) := by omega
-  have hle : e.posn + n ≤ e.totalBytes := by simp only [n]; split <;> omega
-  have ht := walk_tiles hw hnn hnt hal n
-  simp only [hmcpRead, hneg, if_false, hn, tiles_sizes ht, read_sim hs ht hle]
+  by_cases hneg : length < 0
+  · simp [hmcpRead, hneg]
+  · have hn : ((if ((e.posn : Int) + (if (length == 0) = true then (e.totalBytes : Int) - e.posn else length)
+          > e.totalBytes) then (e.totalBytes : Int) - e.posn
+        else (if (length == 0) = true then (e.totalBytes : Int) - e.posn else length)) : Int).toNat
+        = readCount e.totalBytes e.posn length := by
+      simp only [readCount, beq_iff_eq]
+      by_cases h0 : length = 0
+      · subst h0; simp <;> omega
+      · simp only [h0, if_false, false_or]
+        by_cases hgt : (e.posn : Int) + length > e.totalBytes
+        · simp only [hgt, if_true]; omega
+        · simp only [hgt, if_false]
+    have hle : e.posn + readCount e.totalBytes e.posn length ≤ e.totalBytes ∨ readCount e.totalBytes e.posn length = 0 := by
+      simp only [readCount]; split <;> omega
+    have ht := walk_tiles hw hnn hnt e.posn (readCount e.totalBytes e.posn length)
+    simp only [hmcpRead, hneg, if_false, hn, tiles_sizes ht]
+    rcases hle with hle | h0
+    · rw [read_sim hs ht hle]
+    · rw [h0] at ht ⊢
+      cases hwk : walk e.dd e.ntSize e.posn 0 with
+      | nil => simp [readPieces]
+      | cons pc ps =>
+        rw [hwk] at ht
+        obtain ⟨_, h2, h3, _, _⟩ := ht
+        omega
+
+/-! ## the chunked element as the application sees it: any operation sequence, no exclusions -/
+
+/-- one H-level call on the chunked element -/
+inductive Op where
+  | seek (offset : Int) (origin : Nat)     -- `Hseek`, origin 0/1/2 = DF_START/DF_CURRENT/DF_END
+  | write (data : List UInt8)              -- `Hwrite`
+  | read (length : Int)                    -- `Hread`
+
+/-- what the call returns -/
+inductive Out where
+  | posn (n : Nat)
+  | wrote (n : Nat)
+  | bytes (l : List UInt8)
+  | fail
+deriving DecidableEq
+
+/-- the chunked element (model of `HMCPseek`/`HMCPwrite`/`HMCPread`) -/
+def elemStep (e : Elem) : Op → Elem × Out
+  | .seek off origin => match hmcpSeek e off origin with
+    | some e' => (e', .posn e'.posn)
+    | none => (e, .fail)
+  | .write data => match hmcpWrite e data with
+    | some (n, e') => (e', .wrote n)
+    | none => (e, .fail)
+  | .read len => match hmcpRead e len with
+    | some (l, e') => (e', .bytes l)
+    | none => (e, .fail)
+
+/-- SPEC: a fixed-size flat byte array of `total` bytes with a position -/
+structure Flat where
+  f : Nat → UInt8
+  posn : Nat
+
+def flatStep (total : Nat) (s : Flat) : Op → Flat × Out
+  | .seek off origin =>
+    let o := seekTarget total s.posn off origin
+    if o < 0 then (s, .fail) else ({ s with posn := o.toNat }, .posn o.toNat)
+  | .write data =>
+    if data = [] ∨ s.posn + data.length > total then (s, .fail)
+    else ({ f := flatWrite s.f s.posn data, posn := s.posn + data.length }, .wrote data.length)
+  | .read len =>
+    if len < 0 then (s, .fail)
+    else ({ s with posn := s.posn + readCount total s.posn len },
+          .bytes ((List.range' s.posn (readCount total s.posn len)).map s.f))
+
+def runElem (e : Elem) : List Op → List Out
+  | [] => []
+  | op :: ops => (elemStep e op).2 :: runElem (elemStep e op).1 ops
+
+def runFlatOps (total : Nat) (s : Flat) : List Op → List Out
+  | [] => []
+  | op :: ops => (flatStep total s op).2 :: runFlatOps total (flatStep total s op).1 ops
+
+/-- **Every** sequence of `Hseek`/`Hwrite`/`Hread` calls — any origin and offset, any position (aligned or not, inside
+    or past the end), any length (zero, negative, past the end) — returns on the chunked element exactly what it returns
+    on a fixed-size flat byte array: writes that do not fit fail and change nothing, reads are clamped. -/
+theorem chunked_element_refines_flat (ops : List Op) : ∀ {e : Elem} {s : Flat}, ElemOK e →
+    Sim e.dd e.ntSize e.totalBytes e.store s.f → e.posn = s.posn →
+    runElem e ops = runFlatOps e.totalBytes s ops := by
+  induction ops with
+  | nil => intros; rfl
+  | cons op ops ih =>
+    intro e s he hs hp
+    have key : (elemStep e op).2 = (flatStep e.totalBytes s op).2 ∧ ElemOK (elemStep e op).1 ∧
+        (elemStep e op).1.totalBytes = e.totalBytes ∧
+        Sim (elemStep e op).1.dd (elemStep e op).1.ntSize e.totalBytes (elemStep e op).1.store
+          (flatStep e.totalBytes s op).1.f ∧
+        (elemStep e op).1.posn = (flatStep e.totalBytes s op).1.posn := by
+      cases op with
+      | seek off origin =>
+        simp only [elemStep, flatStep, hmcpSeek_eq, ← hp]
+        by_cases hn : seekTarget e.totalBytes e.posn off origin < 0
+        · simp only [hn, if_true]
+          refine ⟨?_, ?_, ?_, ?_, ?_⟩ <;> first | trivial | rfl | exact he | exact hs | exact hp
+        · simp only [hn, if_false]
+          refine ⟨?_, ?_, ?_, ?_, ?_⟩ <;> first | trivial | rfl | exact he | exact hs | exact hp
+      | write data =>
+        have hw := hmcpWrite_spec he hs data
+        simp only [elemStep, flatStep, ← hp]
+        by_cases hbad : data = [] ∨ e.posn + data.length > e.totalBytes
+        · simp only [hbad, if_true] at hw ⊢
+          rw [hw]; exact ⟨rfl, he, rfl, hs, hp⟩
+        · simp only [hbad, if_false] at hw ⊢
+          obtain ⟨e', h1, h2, h3, h4, h5, h6⟩ := hw
+          rw [h1]
+          refine ⟨rfl, ?_, ?_, ?_, h2⟩
+          · obtain ⟨a, b, c, d⟩ := he
+            exact ⟨h3 ▸ a, h3 ▸ b, h4 ▸ c, by rw [h5, h3]; exact d⟩
+          · simp only [Elem.totalBytes, h4, h5]
+          · rw [h3, h4]; exact h6
+      | read len =>
+        have hr := hmcpRead_spec he hs len
+        simp only [elemStep, flatStep, ← hp]
+        by_cases hneg : len < 0
+        · simp only [hneg, if_true] at hr ⊢
+          rw [hr]; exact ⟨rfl, he, rfl, hs, hp⟩
+        · simp only [hneg, if_false] at hr ⊢
+          rw [hr]
+          exact ⟨rfl, he, rfl, hs, rfl⟩
+    obtain ⟨k1, k2, k3, k4, k5⟩ := key
+    show (elemStep e op).2 :: runElem (elemStep e op).1 ops = (flatStep e.totalBytes s op).2 :: runFlatOps e.totalBytes _ ops
+    rw [k1, ih k2 (by rw [k3]; exact k4) k5, k3]
 
 /-! ## array indices ↔ (chunk indices, position in chunk) -/
 
@@ -412,15 +561,30 @@ theorem chunk_io_posn {dims cdims : List Nat} {nt : Nat} (hg : GeomOK dims cdims
 
 example : chunkIOPosn (mkDims [5, 7] [2, 3]) 4 6 [2, 1] = (4 * 7 + 3) * 4 := by decide
 
-/-! ## outside the preconditions the C (and therefore the model) does NOT behave as a byte array -/
+/-! ## the two former counter-examples (findings `chunk-unaligned-access`, `chunk-write-past-end`) after the repair -/
 
-/-- unaligned start: 4 elements of 4 bytes in chunks of 2; reading 4 bytes from byte 2 touches the buffer bytes of
-    positions 0..3, not 2..5 (real library: `Hseek(2); Hread(4)` returns bytes 0,1,2,3) -/
-example : (walk (mkDims [4] [2]) 4 2 4).flatMap Piece.addrs = (List.range' 0 4).map (byteAddr (mkDims [4] [2]) 4) ∧
-    (walk (mkDims [4] [2]) 4 2 4).flatMap Piece.addrs ≠ (List.range' 2 4).map (byteAddr (mkDims [4] [2]) 4) := by decide
+/-- unaligned start: 4 elements of 4 bytes in chunks of 2 (a chunk row = 8 bytes); reading 4 bytes from byte 2 now
+    touches the buffer bytes of positions 2..5 (before the repair: 0..3): ONE piece of 4 bytes at seek 0 + elem_off 2 -/
+example : (walk (mkDims [4] [2]) 4 2 4).flatMap Piece.addrs = (List.range' 2 4).map (byteAddr (mkDims [4] [2]) 4) ∧
+    (walk (mkDims [4] [2]) 4 2 4).map (fun pc => (pc.pos, pc.chunk, pc.seek, pc.size)) = [(2, 0, 2, 4)] := by decide
 
-/-- past the end: 4 one-byte elements; a 2-byte write at position 4 (= the element length) lands on positions 0 and 1
-    (real library: `Hseek(16); Hwrite(8)` on a 16-byte element succeeds and overwrites bytes 0..7) -/
-example : (walk (mkDims [4] [2]) 1 4 2).flatMap Piece.addrs = (List.range' 0 2).map (byteAddr (mkDims [4] [2]) 1) := by decide
+/-- unaligned start crossing a chunk-row end: 3 bytes left in the row, then aligned pieces -/
+example : (walk (mkDims [4] [2]) 4 5 9).map (fun pc => (pc.pos, pc.chunk, pc.seek, pc.size)) = [(5, 0, 5, 3), (8, 1, 0, 6)] := by
+  decide
+
+/-- past the end: a 16-byte element at position 16 refuses an 8-byte write (before the repair it returned 8 and
+    overwrote bytes 0..7), also one straddling the end; a write ending exactly at the end succeeds -/
+example :
+    let e : Elem := { dd := mkDims [4] [2], ntSize := 4, length := 4, store := initStore [0], posn := 16 }
+    hmcpWrite e [1, 2, 3, 4, 5, 6, 7, 8] = none ∧ hmcpWrite { e with posn := 12 } [1, 2, 3, 4, 5, 6, 7, 8] = none ∧
+    (hmcpWrite { e with posn := 9 } [1, 2, 3, 4, 5, 6, 7]).map (·.1) = some 7 := by decide
+
+/-- `chunked_element_refines_flat` on a concrete history: unaligned write, refused write past the end, read to the end -/
+example :
+    let e : Elem := { dd := mkDims [3, 5] [2, 2], ntSize := 2, length := 15, store := initStore [0xAA, 0xBB] }
+    runElem e [.seek 3 0, .write [1, 2, 3, 4, 5], .seek (-2) 2, .write [9, 9, 9], .seek 1 0, .read 9, .read 0, .read (-1)]
+      = [.posn 3, .wrote 5, .posn 28, .fail, .posn 1, .bytes [0xBB, 0xAA, 1, 2, 3, 4, 5, 0xAA, 0xBB],
+         .bytes [0xAA, 0xBB, 0xAA, 0xBB, 0xAA, 0xBB, 0xAA, 0xBB, 0xAA, 0xBB, 0xAA, 0xBB, 0xAA, 0xBB, 0xAA, 0xBB, 0xAA, 0xBB,
+                 0xAA, 0xBB], .fail] := by decide
 
 end H4.Props.C04
